@@ -25,7 +25,7 @@ type Plan struct {
 	Nontrivial       func(r *RunResult) bool
 	Assumptions      []string
 	MemLimit         uint64 // address-space fence for workers (bytes); 0 = none
-	WatchdogS        int  // per-run wall-clock limit in seconds (0: 900)
+	WatchdogS        int    // per-run wall-clock limit in seconds (0: 900)
 	DeathIsViolation bool   // a worker dying reproducibly in a run is a violation (C18), not infrastructure
 }
 
@@ -257,6 +257,7 @@ func Plans() map[string]*Plan {
 		p.LogsPerTxn = [2]int{1, 4}
 		p.RefsPerTxn = [2]int{0, 2}
 		p.FwdLogP = 0.15
+		p.BulkLogsP = 0.1
 		ps["C13"] = &Plan{Prop: "C13", Level: "exploration",
 			Parts:      []Part{turnPart("C13", "S-TURN/expiry", 20000, 2000000, p, RunOpts{})},
 			Rule:       "S-TURN stacks with several log entries per ref across tables; expiry configurations with each limit unset/below/inside/equal/above; non-trivial = an expiry compaction committed; distinct = distinct event hash",
